@@ -448,11 +448,50 @@ fn sym_dfs(s: &mut Vec<u8>, left: usize, joined: &mut Vec<u8>, acc: &mut Acc, bu
     }
 }
 
+/// the two other observation points of the property: the same bytes go through `ProguardMapper::new` (both flags) and
+/// `ProguardCache::write` (into memory) - neither may panic, whatever the lines contain
+fn check_consumers(s: &[u8], acc: &mut Acc) {
+    acc.observations += 1;
+    let r = guarded(|| {
+        let m = ProguardMapping::new(s);
+        let a = proguard::ProguardMapper::new(m.clone());
+        let b = proguard::ProguardMapper::new_with_param_mapping(m.clone(), true);
+        std::hint::black_box((&a, &b));
+        let mut out = Vec::new();
+        let _ = proguard::ProguardCache::write(&m, &mut out);
+        out.len()
+    });
+    if let Err(p) = r {
+        acc.violation(format!("panic:{}", panic_site(&p)), s.len(), || (format!("panic {} while building the mapper / writing the cache from {:?}", p, esc(s)), json!({"kind":"consumers","text":esc(s)})));
+    }
+}
+
+/// member lines whose four numbers come from the boundary numerals (every combination), through iteration and the consumers
+fn numeral_family(acc: &mut Acc) {
+    let nums = ["0", "1", "7", "4294967295", "4294967296", "18446744073709551615", "18446744073709551616"];
+    for s in nums {
+        for e in nums {
+            for os in nums {
+                for oe in nums {
+                    let text = format!("p.A -> a:\n    {}:{}:void m():{}:{} -> x\n    {}:{}:void n() -> x\n", s, e, os, oe, s, e);
+                    acc.states += 1;
+                    acc.transitions += 1;
+                    if check_single(text.as_bytes(), acc) {
+                        check_consumers(text.as_bytes(), acc);
+                    }
+                }
+            }
+        }
+    }
+    acc.count("numeral-family mappings (7^4 member lines) through iteration, mapper construction and cache writing", 1);
+}
+
 fn tok_dfs(s: &mut Vec<u8>, left: usize, joined: &mut Vec<u8>, acc: &mut Acc, budget: &Budget) {
     acc.states += 1;
     acc.transitions += 1;
     if check_single(s, acc) {
         check_splits(s, joined, acc);
+        check_consumers(s, acc);
     }
     if left == 0 || budget.exceeded() {
         return;
@@ -598,6 +637,7 @@ pub fn run(tier: Tier) -> i32 {
                 cut_family(&mut joined, acc);
                 protocol_family(acc);
                 sections_family(acc);
+                numeral_family(acc);
                 long_line_family(&mut joined, acc);
                 error_run_family(&mut joined, acc);
             }
@@ -645,7 +685,7 @@ pub fn run(tier: Tier) -> i32 {
         prop: "C06",
         tier,
         level: "model_checking",
-        rule: format!("(plus: the records of every section(a..b) of four small texts with multi-byte characters, with and without iterating the parent first, must be the records of a fresh mapping over those bytes) inputs enumerated exhaustively: all byte strings of length <= {} over the 9 symbols LF CR SP a : # 1 - >; all strings of <= {} tokens over the 19-token alphabet (UTF-8 byte order mark, backslash, single space, delimiters, sourceFile prefix, '\"}}', invalid UTF-8, Latin-1 'numeric' byte, 30-digit run); every split of each of them at LF / lone CR / CRLF; all pairs (A, B) with A <= {} tokens, B <= 2 tokens joined by LF (and by CR and CRLF with A one token shorter); the cut family (14 well-formed lines cut at every byte, x 3 contexts before x 2 after x 3 line breaks); the long-line family (malformed, well-formed and digit-run lines of 1023..2^20+16 bytes followed by ordinary lines); the error-run family (99..100000 consecutive malformed lines followed by ordinary lines); line-boundary splits of the corpus files; the iterator-protocol family (every file of <= 4 lines over an 8-line alphabet x 4 terminators: nth / skip / step_by / last / count / size_hint and partial consumption must see the items of repeated next(), i.e. skipping k items of A + linebreak + B skips exactly k items). Oracle: iteration ends within len+1 items without panic, no yielded string contains CR/LF, records(A+linebreak+B) = records(A)++records(B) (Ok records exactly, Err items by offending line modulo terminator, zero-length error items ignored). states = strings / pairs / splits; distinct = distinct item streams", sym_depth, tok_depth, amax),
+        rule: format!("(every token string and a family of member lines with boundary numerals in all four positions also go through ProguardMapper::new (both flags) and ProguardCache::write, which must not panic; plus: the records of every section(a..b) of four small texts with multi-byte characters, with and without iterating the parent first, must be the records of a fresh mapping over those bytes) inputs enumerated exhaustively: all byte strings of length <= {} over the 9 symbols LF CR SP a : # 1 - >; all strings of <= {} tokens over the 19-token alphabet (UTF-8 byte order mark, backslash, single space, delimiters, sourceFile prefix, '\"}}', invalid UTF-8, Latin-1 'numeric' byte, 30-digit run); every split of each of them at LF / lone CR / CRLF; all pairs (A, B) with A <= {} tokens, B <= 2 tokens joined by LF (and by CR and CRLF with A one token shorter); the cut family (14 well-formed lines cut at every byte, x 3 contexts before x 2 after x 3 line breaks); the long-line family (malformed, well-formed and digit-run lines of 1023..2^20+16 bytes followed by ordinary lines); the error-run family (99..100000 consecutive malformed lines followed by ordinary lines); line-boundary splits of the corpus files; the iterator-protocol family (every file of <= 4 lines over an 8-line alphabet x 4 terminators: nth / skip / step_by / last / count / size_hint and partial consumption must see the items of repeated next(), i.e. skipping k items of A + linebreak + B skips exactly k items). Oracle: iteration ends within len+1 items without panic, no yielded string contains CR/LF, records(A+linebreak+B) = records(A)++records(B) (Ok records exactly, Err items by offending line modulo terminator, zero-length error items ignored). states = strings / pairs / splits; distinct = distinct item streams", sym_depth, tok_depth, amax),
         bounds: json!({"byte_string_length": sym_depth, "token_string_depth": tok_depth, "pairs": {"A_tokens": amax, "B_tokens": 2}, "tokens": TOKENS.iter().map(|t| esc(t)).collect::<Vec<_>>(), "corpus": "small files: every line boundary; the two files > 100 kB: every 1024th (quick) / 32nd (thorough) line boundary - that part is a stride, not exhaustive"}),
         assumptions: vec!["reading I3: a zero-length error item (blank tail after an error line) is not a malformed line".into()],
         trusted_base: vec!["rustc/std".into(), "Debug formatting of ProguardRecord for exact comparison of Ok records".into()],
@@ -662,6 +702,10 @@ pub fn recheck(case: &Value) -> Vec<String> {
             protocol_one(&s, &mut acc);
         }
         "sections" => sections_family(&mut acc),
+        "consumers" => {
+            let s = unesc(case["text"].as_str().unwrap_or(""));
+            check_consumers(&s, &mut acc);
+        }
         "bytes" => {
             let s = unesc(case["text"].as_str().unwrap_or(""));
             if check_single(&s, &mut acc) {
